@@ -28,7 +28,8 @@
      false); with a non-LIFO leave it hands out the frame header
      ([C19_nonlifo_leave_hits_header]).
    * after arena_free with scopes still open only leaves are within the API. *)
-From Robsd Require Import Arena.ArenaDefs Arena.ArenaSpec Arena.ArenaProofs Arena.ArenaInv Arena.ArenaThms.
+From Robsd Require Import Arena.ArenaDefs Arena.ArenaSpec Arena.ArenaProofs Arena.ArenaInv Arena.ArenaThms
+  Arena.ArenaOracle.
 From RobsdGen Require Import Gen_Arena.
 From Coq Require Import List NArith Permutation.
 Import ListNotations.
@@ -191,6 +192,29 @@ Theorem C19_oracle_block_check : forall c others b fsize,
   (b_off b mod c_ma c = 0 /\ c_hdr c <= b_off b /\ b_end b <= fsize /\ Forall (disjoint b) others).
 Proof. exact check_new_block_spec. Qed.
 Print Assumptions C19_oracle_block_check.
+
+(* the whole oracle never objects to the model: for EVERY program (API-respecting or
+   not, any handles), the trace the model produces from arena_alloc passes every check
+   of spec_check up to the point where the program leaves the API (code
+   R_OUTSIDE_API) or names a pointer no operation returned (R_BAD_HANDLE).  Hence an
+   oracle failure on the implementation is a violation of C19 or a difference between
+   model and implementation - never an artefact of the oracle. *)
+Theorem C19_oracle_accepts_model : forall c, wf_cfg c -> forall st ops,
+  init c = Some st ->
+  let '(tr, last, e) := mtrace c st [] ops in
+  match spec_check c tr last e with
+  | None => True
+  | Some (_, code) => code = R_OUTSIDE_API \/ code = R_BAD_HANDLE
+  end.
+Proof. exact model_passes_oracle. Qed.
+Print Assumptions C19_oracle_accepts_model.
+
+(* ... and that trace is the run the correspondence driver prints *)
+Theorem C19_driver_run_is_model_trace : forall c ops st tbl,
+  map fst (fst (hrun c st tbl ops)) = map (fun x => o_ev (snd x)) (fst (fst (mtrace c st tbl ops))) /\
+  snd (hrun c st tbl ops) = snd (mtrace c st tbl ops).
+Proof. exact hrun_mtrace. Qed.
+Print Assumptions C19_driver_run_is_model_trace.
 
 (* ---- witnesses ------------------------------------------------------------------------------- *)
 Definition run_from_alloc (c : cfg) (ops : list op) : option (list event * ending) :=
